@@ -265,6 +265,16 @@ def keyToManaged (m : Mem) (sc acct br idx : Nat) (priv : Bool) : Mem × Nat :=
   if priv then r
   else (r.1.updScope sc (fun s => { s with dou := s.dou ++ [⟨r.2, acct, br, idx⟩] }), r.2)
 
+/-- the account info built by `loadAccountInfo` from an account row, cached under the account number -/
+def loadAcctRow (m : Mem) (sc acct : Nat) (row : AcctRow) : Mem :=
+  let hasPriv := !m.locked && !m.watchOnly && !row.wo
+  let r1 := keyToManaged m sc acct 0 (row.nextExt - 1) hasPriv
+  let r2 := keyToManaged r1.1 sc acct 1 (row.nextInt - 1) hasPriv
+  let ai : AcctInfo :=
+    { name := row.name, wo := row.wo, hasEnc := row.hasPriv && !row.wo, keyPriv := hasPriv,
+      nextExt := row.nextExt, nextInt := row.nextInt, lastExt := r1.2, lastInt := r2.2 }
+  r2.1.updScope sc fun s => { s with acctInfo := aset s.acctInfo acct ai }
+
 /-- `loadAccountInfo` -/
 def loadAcct (d : Disk) (m : Mem) (sc acct : Nat) : Except Err Mem :=
   match aget (m.scopes sc).acctInfo acct with
@@ -275,14 +285,8 @@ def loadAcct (d : Disk) (m : Mem) (sc acct : Nat) : Except Err Mem :=
     | some row =>
       -- the imported account row has no extended keys: decrypting the (nil) public key fails
       if acct = IMPORTED then .error .crypto else
-      let hasPriv := !m.locked && !m.watchOnly && !row.wo
-      if hasPriv && !row.hasPriv then .error .crypto else
-      let r1 := keyToManaged m sc acct 0 (row.nextExt - 1) hasPriv
-      let r2 := keyToManaged r1.1 sc acct 1 (row.nextInt - 1) hasPriv
-      let ai : AcctInfo :=
-        { name := row.name, wo := row.wo, hasEnc := row.hasPriv && !row.wo, keyPriv := hasPriv,
-          nextExt := row.nextExt, nextInt := row.nextInt, lastExt := r1.2, lastInt := r2.2 }
-      .ok (r2.1.updScope sc fun s => { s with acctInfo := aset s.acctInfo acct ai })
+      if (!m.locked && !m.watchOnly && !row.wo) && !row.hasPriv then .error .crypto else
+      .ok (loadAcctRow m sc acct row)
 
 def acctInfoOf (m : Mem) (sc acct : Nat) : Option AcctInfo := aget (m.scopes sc).acctInfo acct
 
